@@ -310,6 +310,17 @@ func (e *Engine) pushFrame(c *Config, fn *ssa.Function, args []Value, bindings [
 
 func (e *Engine) runModel(cc *CallCtx, m *Model, name string) bool {
 	c := cc.c
+	// environment hook (verifBefore): run the registered function inline once before this model call
+	if hk, ok := e.beforeHooks[name]; ok && cc.site.Call != nil && c.inHook == 0 {
+		f := cc.f
+		if !(f.hookBlk == f.blk.Index && f.hookIdx == f.idx+1) {
+			f.hookBlk, f.hookIdx = f.blk.Index, f.idx+1
+			c.inHook++
+			e.callValue(c, hk, nil, func(e *Engine, c2 *Config, _ Value) { c2.inHook-- }, func(e *Engine, c2 *Config) { c2.inHook-- })
+			return !c.g.IsFalse()
+		}
+		f.hookIdx = 0
+	}
 	// method models need a unique receiver: fork on the receiver argument if necessary
 	if strings.HasPrefix(name, "(*") && len(cc.args) > 0 && cc.site.Call != nil && !cc.site.Common.IsInvoke() {
 		if rv, ok := cc.args[0].(*RefV); ok && (len(rv.Alts) != 1 || !rv.Alts[0].G.IsTrue()) && len(cc.site.Common.Args) > 0 {
@@ -948,6 +959,12 @@ func (e *Engine) intrinsic(cc *CallCtx, name string) bool {
 	case "verifYield":
 		return e.visibleOp(c, cc.rest, func(int) *Term { return TS.True }, func(int) bool { cc.finish(nil); return true })
 	case "verifObserve":
+		cc.finish(nil)
+	case "verifBefore":
+		if e.beforeHooks == nil {
+			e.beforeHooks = map[string]Value{}
+		}
+		e.beforeHooks[constName(a[0])] = a[1]
 		cc.finish(nil)
 	case "verifBoundTryFailures":
 		n := a[0].(*Term)
